@@ -290,6 +290,11 @@ def _make_spy_forecaster():
         def cutoff(self):
             return self.inner_.cutoff
 
+        def _set_cutoff(self, cutoff):
+            # (as sktime's own forecasters: composites move their parts' cutoffs with theirs)
+            if hasattr(self, "inner_") and hasattr(self.inner_, "_set_cutoff"):
+                self.inner_._set_cutoff(cutoff)
+
         def get_fitted_params(self):
             return self.inner_.get_fitted_params()
 
